@@ -514,6 +514,26 @@ func (x *Exec) call(a *activation, b *ssa.BasicBlock, i int, in *ssa.Call, fr *f
 		}
 	}
 	if cc.IsInvoke() && invoked == nil {
+		// an interface of the library with a single implementing type: every
+		// non-nil value of it has that type (class hierarchy)
+		if D := x.c.soleImplementer(cc.Value.Type()); D != nil {
+			if m := x.c.Prog.LookupMethod(D, cc.Method.Pkg(), cc.Method.Name()); m != nil && m.Blocks != nil && (m.Pkg == x.c.SLib || m.Pkg == x.c.SCLI) {
+				recv := x.val(fr, cc.Value)
+				invoked = m
+				var rv AV
+				if _, isPtr := D.Underlying().(*types.Pointer); isPtr {
+					rv = AV{k: 'P', tri: 2, obj: recv.obj, what: "ptr " + D.String()}
+					if recv.k == 'P' {
+						rv = recv
+					}
+				} else {
+					rv = AV{k: 'G', agg: recv.agg, what: "struct"}
+				}
+				args = append([]AV{rv}, args...)
+			}
+		}
+	}
+	if cc.IsInvoke() && invoked == nil {
 		recv := x.val(fr, cc.Value)
 		switch cc.Method.Name() {
 		case "Error", "String":
@@ -1360,4 +1380,51 @@ func (x *Exec) appendCap() int {
 		return 0 // a list grown in a loop of unknown length: one cell per element says nothing
 	}
 	return 3
+}
+
+// soleImplementer: for an interface type declared in the library, the one
+// library type (T or *T) whose method set implements it; nil when there are
+// none or several, or the interface is not the library's.
+func (c *Ctx) soleImplementer(t types.Type) types.Type {
+	n, ok := t.(*types.Named)
+	if !ok || n.Obj().Pkg() == nil || (n.Obj().Pkg() != c.SLib.Pkg && (c.SCLI == nil || n.Obj().Pkg() != c.SCLI.Pkg)) {
+		return nil
+	}
+	it, ok := n.Underlying().(*types.Interface)
+	if !ok || it.NumMethods() == 0 {
+		return nil
+	}
+	if c.soleImpl == nil {
+		c.soleImpl = map[*types.Named]types.Type{}
+	}
+	if d, ok := c.soleImpl[n]; ok {
+		return d
+	}
+	var found []types.Type
+	for _, pkg := range []*ssa.Package{c.SLib, c.SCLI} {
+		if pkg == nil {
+			continue
+		}
+		for _, m := range pkg.Members {
+			tm, ok := m.(*ssa.Type)
+			if !ok {
+				continue
+			}
+			T := tm.Type()
+			if _, isIface := T.Underlying().(*types.Interface); isIface {
+				continue
+			}
+			if types.Implements(T, it) {
+				found = append(found, T)
+			} else if pt := types.NewPointer(T); types.Implements(pt, it) {
+				found = append(found, pt)
+			}
+		}
+	}
+	var d types.Type
+	if len(found) == 1 {
+		d = found[0]
+	}
+	c.soleImpl[n] = d
+	return d
 }
